@@ -410,6 +410,10 @@ func buildValue(text []byte, target int, typeSeed uint64) (std any, fork any, ok
 			return trustMarker{typeSeed, string(text)}, wrapShape(typeSeed, &Trust{Text: string(text)}), true
 		}
 		fv := toFork(v)
+		if typeSeed&48 == 48 {
+			// the redirected value contains a Marshaler of its own (which may be scripted to fail)
+			return wrapShape(typeSeed, []any{v, &Flaky{Got: string(text)}}), wrapShape(typeSeed, Redir{V: []any{fv, &Flaky{Got: string(text)}}}), true
+		}
 		if typeSeed&4 != 0 {
 			return wrapShape(typeSeed, v), wrapShape(typeSeed, Redir{V: Redir{V: fv}}), true
 		}
